@@ -219,6 +219,8 @@ def run_one(seed: int, tid: int, mode: str):
                 r = (rng.choice([Q * rng.choice([1, 2, 4, 5, 8, 9, 12, 13, 16, 21, 24, 32]),
                                  F(R.avail_ram_pool) if R.avail_ram_pool * k["U"] >= 1 else Q, ram])          # (not a float residue of 1e-15 GB: it projects to 0 units)
                      if valid or rng.random() < (0.85 if reject_mode else 0.94) else rng.choice([F(0), F(R.avail_ram_pool) + F(1, k["U"])]))
+            if 0 < r * k["U"] < F(1, 2):
+                r = F(0)          # a float residue (free RAM of -1 unit + 1 unit = 3e-15 GB) is not a request anybody makes: ask for nothing, which both sides refuse
             if k["huge"] and rng.random() < 0.35 and R.avail_ram_pool > 0:
                 r = F(R.avail_ram_pool) + F(1, k["U"])          # oversold by a relative 1e-9
             if valid:
